@@ -161,6 +161,20 @@ func (s *nestedSpace) Ops(w *World) []Op {
 				}
 			}
 		}
+		if s.spec.Extra["rej"] == 1 {
+			if c.IsMap {
+				for k := 0; k < s.keys; k++ {
+					ops = append(ops, Op{K: "mget", C: c.Serial, Key: k}, Op{K: "mremove", C: c.Serial, Key: k + 10})
+				}
+			} else {
+				for _, i := range oobIndexes(uint64(n)) {
+					ops = append(ops, Op{K: "get", C: c.Serial, I: i}, Op{K: "set", C: c.Serial, I: i, V: "t"}, Op{K: "remove", C: c.Serial, I: i})
+					if i != uint64(n) {
+						ops = append(ops, Op{K: "insert", C: c.Serial, I: i, V: "h"})
+					}
+				}
+			}
+		}
 		if n > 0 {
 			ops = append(ops, Op{K: "pop", C: c.Serial})
 		}
